@@ -94,7 +94,7 @@ def gen_op(rng, space_cfg, allow=('matrix', 'identity', 'scaling', 'gradient',
     elif kind in ('gradient', 'partial'):
         cfg['method'] = rng.choice(['forward', 'backward', 'central'])
         cfg['pad_mode'] = rng.choice(['constant', 'periodic', 'symmetric',
-                                      'order0'])
+                                      'order0', 'order1', 'order2'])
         cfg['axis'] = 0
     elif kind == 'broadcast':
         sub_allow = tuple(a for a in ('matrix', 'identity', 'scaling', 'partial')
